@@ -76,6 +76,34 @@ func settingsFile(h fitmodel.Header) []byte {
 	return buildFile(h, recs...)
 }
 
+// monitoringStateful: a monitoring_b file whose first records use compressed-timestamp headers and a local
+// timestamp *before* any explicit timestamp: decoded alone they get no timestamp / zero offset; any decoder
+// state leaking in from an earlier file changes them.
+func monitoringStateful(h fitmodel.Header) []byte {
+	const mon = 55
+	defC := fitmodel.Def{Local: 2, Global: mon, Fields: []fitmodel.FieldDef{{Num: 1, Size: 2, Base: fitmodel.Uint16}}}
+	defL := fitmodel.Def{Local: 4, Global: mon, Fields: []fitmodel.FieldDef{{Num: 11, Size: 4, Base: fitmodel.Uint32}, {Num: 1, Size: 2, Base: fitmodel.Uint16}}}
+	defE := fitmodel.Def{Local: 1, Global: mon, Fields: []fitmodel.FieldDef{{Num: 253, Size: 4, Base: fitmodel.Uint32}, {Num: 1, Size: 2, Base: fitmodel.Uint16}}}
+	u32 := func(v uint32) []byte { return fitmodel.PutUint(binary.LittleEndian, 4, uint64(v)) }
+	recs := fitmodel.FileIdRecords(0, 32)
+	recs = append(recs, defC.Bytes(), defL.Bytes(), defE.Bytes(),
+		fitmodel.Compressed(2, 3, []byte{1, 0}),
+		fitmodel.Data(4, append(u32(1000007200), 2, 0)),
+		fitmodel.Data(1, append(u32(1000000040), 3, 0)),
+		fitmodel.Compressed(2, 2, []byte{4, 0}))
+	return buildFile(h, recs...)
+}
+
+// zeroSizeFile: records whose last field has size 0, and records that consist of the header byte only.
+func zeroSizeFile(h fitmodel.Header) []byte {
+	recs := fitmodel.FileIdRecords(0, 4)
+	d1 := fitmodel.Def{Local: 1, Global: 20, Fields: []fitmodel.FieldDef{{Num: 3, Size: 1, Base: fitmodel.Uint8}, {Num: 200, Size: 0, Base: fitmodel.String}}}
+	d2 := fitmodel.Def{Local: 2, Global: 20}
+	d3 := fitmodel.Def{Local: 3, Global: 20, Fields: []fitmodel.FieldDef{{Num: 201, Size: 0, Base: fitmodel.String}}}
+	recs = append(recs, d1.Bytes(), fitmodel.Data(1, []byte{61}), d2.Bytes(), fitmodel.Data(2, nil), fitmodel.Data(1, []byte{62}), d3.Bytes(), fitmodel.Data(3, nil), fitmodel.Data(2, nil))
+	return buildFile(h, recs...)
+}
+
 func chain(name string, members ...[]byte) namedStream {
 	return namedStream{Name: name, B: fitmodel.Concat(members...), Members: members}
 }
@@ -96,4 +124,9 @@ var (
 	sChain2b  = chain("chain(activity-3rec,settings)", sAct3.B, sSet.B)
 	sChain3   = chain("chain(min14,activity-3rec-be,min12)", sMin14.B, sAct3BE.B, sMin12.B)
 	sChainBig = chain("chain(activity-700rec,min14)", sBig.B, sMin14.B)
+	sMonState = single("monitoring-stateful", monitoringStateful(hdr14()))
+	sZero     = single("zero-size-fields", zeroSizeFile(hdr12()))
+	sChainState  = chain("chain(activity-3rec,monitoring-stateful)", sAct3.B, sMonState.B)
+	sChainState3 = chain("chain(monitoring-stateful,activity-3rec-be,monitoring-stateful)", sMonState.B, sAct3BE.B, sMonState.B)
+	sChainZero   = chain("chain(zero-size-fields,min12)", sZero.B, sMin12.B)
 )
